@@ -1,6 +1,7 @@
 package main
 
 import (
+	"go/token"
 	"fmt"
 	"go/types"
 	"os"
@@ -41,12 +42,8 @@ func (fr *Frame) witnessCandidates() []string {
 	}
 	sort.Slice(heads, func(i, j int) bool { return fr.loops[heads[i]].ord < fr.loops[heads[j]].ord })
 	for _, h := range heads {
-		for _, in := range h.Instrs {
-			if phi, ok := in.(*ssa.Phi); ok && phi.Comment == "rangeindex" {
-				if v, ok := fr.vals[phi]; ok {
-					out = append(out, fmt.Sprintf("(+ %s 1)", v.T))
-				}
-			}
+		if t, ok := fr.loopIndexTerm(fr.loops[h]); ok {
+			out = append(out, t)
 		}
 	}
 	return out
@@ -100,6 +97,25 @@ type lval struct {
 }
 
 func (ec *EvalCtx) lookupName(n string) (Val, bool) {
+	if v, ok := ec.lookupName0(n); ok {
+		return v, true
+	}
+	// the name is not a variable of the function any more: if the pinned tree knew it as the k-th variable of some type
+	// (or the i-th parameter), bind it to the variable that holds that place now (renamed locals and parameters)
+	if ec.fr != nil && ec.ex.bindings != nil {
+		for f := ec.fr; f != nil; f = f.parentFrame {
+			if alt := ec.ex.rebind(f.fn, n); alt != "" && alt != n {
+				if v, ok := ec.lookupName0(alt); ok {
+					ec.ex.note("contract name %s of %s bound to the renamed variable %s", n, f.fn.Name(), alt)
+					return v, true
+				}
+			}
+		}
+	}
+	return Val{}, false
+}
+
+func (ec *EvalCtx) lookupName0(n string) (Val, bool) {
 	for i := len(ec.bound) - 1; i >= 0; i-- {
 		if v, ok := ec.bound[i][n]; ok {
 			return v, true
@@ -113,9 +129,11 @@ func (ec *EvalCtx) lookupName(n string) (Val, bool) {
 			return v, true
 		}
 		if v, ok := ec.fr.params[n]; ok {
+			ec.ex.recordBinding(ec.fr.fn, n)
 			return v, true
 		}
 		if v, ok := ec.fr.localByName(n, ec); ok {
+			ec.ex.recordBinding(ec.fr.fn, n)
 			return v, true
 		}
 		// inside an inlined callee (e.g. a function literal): names of the functions it is inlined into
@@ -124,6 +142,7 @@ func (ec *EvalCtx) lookupName(n string) (Val, bool) {
 				return v, true
 			}
 			if v, ok := pf.params[n]; ok {
+				ec.ex.recordBinding(pf.fn, n)
 				return v, true
 			}
 			pc := *ec
@@ -131,6 +150,7 @@ func (ec *EvalCtx) lookupName(n string) (Val, bool) {
 			pc.loop = nil
 			pc.at = nil
 			if v, ok := pf.localByName(n, &pc); ok {
+				ec.ex.recordBinding(pf.fn, n)
 				return v, true
 			}
 		}
@@ -149,12 +169,8 @@ func (fr *Frame) localByName(n string, ec *EvalCtx) (Val, bool) {
 		// idx<k>: index of loop with ordinal k (number of completed iterations / current element inside its body)
 		for _, li := range fr.loops {
 			if li.ord == int(n[3]-'0') {
-				for _, in := range li.head.Instrs {
-					if phi, ok := in.(*ssa.Phi); ok && phi.Comment == "rangeindex" {
-						if v, ok := fr.vals[phi]; ok {
-							return Val{T: fmt.Sprintf("(+ %s 1)", v.T), S: SInt, G: phi.Type()}, true
-						}
-					}
+				if t, ok := fr.loopIndexTerm(li); ok {
+					return Val{T: t, S: SInt, G: types.Typ[types.Int]}, true
 				}
 			}
 		}
@@ -168,26 +184,15 @@ func (fr *Frame) localByName(n string, ec *EvalCtx) (Val, bool) {
 			}
 		}
 		if best != nil {
-			for _, in := range best.head.Instrs {
-				if phi, ok := in.(*ssa.Phi); ok && phi.Comment == "rangeindex" {
-					if v, ok := fr.vals[phi]; ok {
-						return Val{T: fmt.Sprintf("(+ %s 1)", v.T), S: SInt, G: phi.Type()}, true
-					}
-				}
+			if t, ok := fr.loopIndexTerm(best); ok {
+				return Val{T: t, S: SInt, G: types.Typ[types.Int]}, true
 			}
 		}
 	}
 	if ec.loop != nil {
 		if n == "idx" { // number of completed iterations of a range-over-slice loop
-			for phi := range ec.loop.phiHavoc {
-				if phi.Comment == "rangeindex" {
-					return Val{T: fmt.Sprintf("(+ %s 1)", fr.val(phi).T), S: SInt, G: phi.Type()}, true
-				}
-			}
-			for _, in := range ec.loop.head.Instrs {
-				if phi, ok := in.(*ssa.Phi); ok && phi.Comment == "rangeindex" {
-					return Val{T: fmt.Sprintf("(+ %s 1)", fr.val(phi).T), S: SInt, G: phi.Type()}, true
-				}
+			if t, ok := fr.loopIndexTerm(ec.loop); ok {
+				return Val{T: t, S: SInt, G: types.Typ[types.Int]}, true
 			}
 		}
 		for _, in := range ec.loop.head.Instrs {
@@ -1420,4 +1425,157 @@ func isAdapterIface(t types.Type) bool {
 		}
 	}
 	return false
+}
+
+// loopIndexTerm: the number of completed iterations of loop li ("idx" in contracts): for a range-over-slice loop the
+// hidden range index + 1; for a counting loop (a loop-head phi that starts at the constant 0 and is incremented by
+// the constant 1 on every back edge) the counter itself.
+func (fr *Frame) loopIndexTerm(li *loopInfo) (string, bool) {
+	if li == nil {
+		return "", false
+	}
+	for _, in := range li.head.Instrs {
+		if phi, ok := in.(*ssa.Phi); ok && phi.Comment == "rangeindex" {
+			if v, ok := fr.vals[phi]; ok {
+				return fmt.Sprintf("(+ %s 1)", v.T), true
+			}
+		}
+	}
+	for _, in := range li.head.Instrs {
+		phi, ok := in.(*ssa.Phi)
+		if !ok {
+			break
+		}
+		if b, isB := phi.Type().Underlying().(*types.Basic); !isB || b.Info()&types.IsInteger == 0 {
+			continue
+		}
+		okShape := len(phi.Edges) >= 2
+		for i, e := range phi.Edges {
+			pred := li.head.Preds[i]
+			if li.body[pred] {
+				bo, isBin := e.(*ssa.BinOp)
+				if !isBin || bo.Op != token.ADD || bo.X != phi {
+					okShape = false
+					break
+				}
+				c, isC := bo.Y.(*ssa.Const)
+				if !isC || c.Value == nil || c.Value.ExactString() != "1" {
+					okShape = false
+					break
+				}
+			} else {
+				c, isC := e.(*ssa.Const)
+				if !isC || c.Value == nil || c.Value.ExactString() != "0" {
+					okShape = false
+					break
+				}
+			}
+		}
+		if okShape {
+			if v, ok := fr.vals[phi]; ok {
+				return v.T, true
+			}
+		}
+	}
+	return "", false
+}
+
+// ---- rename-tolerant binding of contract names ----
+
+// BindDesc says which variable a contract name denoted on the pinned tree: the i-th parameter, or the k-th of n
+// variables of a type (in order of declaration).
+type BindDesc struct {
+	Kind  string `json:"kind"` // param | local
+	Index int    `json:"index"`
+	Type  string `json:"type,omitempty"`
+	Count int    `json:"count,omitempty"`
+}
+
+func fnVars(fn *ssa.Function) []*types.Var {
+	seen := map[*types.Var]bool{}
+	var out []*types.Var
+	for _, b := range fn.Blocks {
+		for _, in := range b.Instrs {
+			if d, ok := in.(*ssa.DebugRef); ok {
+				if v, ok := d.Object().(*types.Var); ok && !seen[v] && !v.IsField() {
+					seen[v] = true
+					out = append(out, v)
+				}
+			}
+		}
+	}
+	for _, p := range fn.Params {
+		if v, ok := p.Object().(*types.Var); ok && !seen[v] {
+			seen[v] = true
+			out = append(out, v)
+		}
+	}
+	sort.Slice(out, func(i, j int) bool { return out[i].Pos() < out[j].Pos() })
+	return out
+}
+
+func describeVar(fn *ssa.Function, name string) *BindDesc {
+	for i, p := range fn.Params {
+		if p.Name() == name {
+			return &BindDesc{Kind: "param", Index: i}
+		}
+	}
+	vars := fnVars(fn)
+	for _, v := range vars {
+		if v.Name() != name {
+			continue
+		}
+		ts := types.TypeString(v.Type(), nil)
+		k, n := 0, 0
+		for _, w := range vars {
+			if types.TypeString(w.Type(), nil) == ts {
+				if w == v {
+					k = n
+				}
+				n++
+			}
+		}
+		return &BindDesc{Kind: "local", Index: k, Type: ts, Count: n}
+	}
+	return nil
+}
+
+func (ex *Exec) recordBinding(fn *ssa.Function, name string) {
+	if ex.bindRec == nil {
+		return
+	}
+	key := canonName(fn)
+	if ex.bindRec[key] == nil {
+		ex.bindRec[key] = map[string]*BindDesc{}
+	}
+	if _, ok := ex.bindRec[key][name]; ok {
+		return
+	}
+	if d := describeVar(fn, name); d != nil {
+		ex.bindRec[key][name] = d
+	}
+}
+
+// rebind: the present name of the variable that contract name n of fn denoted on the pinned tree ("" = unknown).
+func (ex *Exec) rebind(fn *ssa.Function, n string) string {
+	d := ex.bindings[canonName(fn)][n]
+	if d == nil {
+		return ""
+	}
+	if d.Kind == "param" {
+		if d.Index < len(fn.Params) {
+			return fn.Params[d.Index].Name()
+		}
+		return ""
+	}
+	var same []*types.Var
+	for _, v := range fnVars(fn) {
+		if types.TypeString(v.Type(), nil) == d.Type {
+			same = append(same, v)
+		}
+	}
+	if len(same) != d.Count || d.Index >= len(same) {
+		return ""
+	}
+	return same[d.Index].Name()
 }
